@@ -574,9 +574,13 @@ class SQLTranspiler(StructureVisitor, ASTTemplate):
                 out_name = name
                 if output_name_override is not None:
                     out_name = output_name_override
-                elif len(output_measures) == 1 and (
-                    ds.name not in self.input_datasets
-                    or name in self.input_datasets[ds.name].get_measures_names()
+                elif (
+                    len(output_measures) == 1
+                    and len(ds.get_measures_names()) == 1
+                    and (
+                        ds.name not in self.input_datasets
+                        or name in self.input_datasets[ds.name].get_measures_names()
+                    )
                 ):
                     out_name = output_measures[0]
                 cols.append(f"{expr} AS {quote_name(out_name)}")
